@@ -145,7 +145,8 @@ def finalizeEffects (s : State) (n : Name) (e : Entry) (now : Int) : List Prim :
         let t := targetOf n e.renamed
         [Prim.renWaitFinal n t] ++
         toCache s.mem n { e with logged := some now } .finalized now ++
-        [Prim.rmCmp n, Prim.waitTake n] ++
+        -- the companion goes only if it still describes the version being put away
+        [Prim.rmCmpIf n e.hash, Prim.waitTake n] ++
         (s.mem.wait.filter (fun w => w.1 == n)).map (fun w => Prim.fqPush w.2.1 w.2.2))) ++
   [Prim.lockDel n]
 
